@@ -165,19 +165,12 @@ theorem OneReply.replies_length {s : Nat} {d : Option Str} {evs : List (Event V)
   obtain ⟨m, h, _, _⟩ := h
   subst h; simp [replies]
 
-/-- The text `send_error` sends before `textFix`. -/
-def errText (env : Env V) (e : Exc) : Str :=
-  let n := match e.errName with
-    | some n => n
-    | none => pyExceptionPrefix ++ e.cls
-  if env.validErr n then e.text else pyFormat invalidNameNotice [n] ++ e.text
-
 theorem sendError_eq (env : Env V) (p : Pending) (e : Exc) :
     sendError env p e =
-      match env.textFix (errText env e) with
+      match env.textFix (errorText env.validErr e) with
       | some t => [.sent (.err (errorName env.validErr e) p.serial p.sender t)]
       | none => [] := by
-  unfold sendError errText errorName
+  unfold sendError errorText errorName
   cases e.errName with
   | none =>
     simp only
@@ -197,15 +190,15 @@ theorem sendError_eq (env : Env V) (p : Pending) (e : Exc) :
 theorem sendError_replyish (env : Env V) (p : Pending) (e : Exc) :
     Replyish p.serial p.sender (sendError env p e) := by
   rw [sendError_eq]
-  cases env.textFix (errText env e) with
+  cases env.textFix (errorText env.validErr e) with
   | none => exact Or.inl rfl
   | some t => exact Or.inr ⟨_, rfl, rfl, rfl⟩
 
 theorem sendError_one (env : Env V) (ht : TextTotal env) (p : Pending) (e : Exc) :
     OneReply p.serial p.sender (sendError env p e) := by
   rw [sendError_eq]
-  have := ht (errText env e)
-  cases h : env.textFix (errText env e) with
+  have := ht (errorText env.validErr e)
+  cases h : env.textFix (errorText env.validErr e) with
   | none => simp [h] at this
   | some t => exact ⟨_, rfl, rfl, rfl⟩
 
@@ -249,11 +242,8 @@ theorem callInv_replies (c : Call V) (v : Verdict) : replies (callInv c v) = [] 
   cases v <;> simp [callInv, replies]
 
 theorem callInv_invocations (c : Call V) (v : Verdict) :
-    invocations (callInv c v) =
-      match v with
-      | .run f _ => [expectedInvocation c f]
-      | _ => [] := by
-  cases v <;> simp [callInv, invocations, expectedInvocation]
+    invocations (callInv c v) = expectedInvocations c v := by
+  cases v <;> simp [callInv, invocations, expectedInvocation, expectedInvocations]
 
 theorem sendErr_one (c : Call V) (name text : Str) : OneReply c.serial c.sender [sendErr c name text] :=
   ⟨_, rfl, rfl, rfl⟩
